@@ -436,6 +436,20 @@ impl Property for C18 {
             }
             c.enc = tame_encoder(*rng.pick(&encoders_for(Sem::PR, QKind::DS)), &s);
         }
+        // a quarter of the remaining runs query a LIST of 2..4 arguments (repetitions allowed): the
+        // bounds hold for every query the API admits ("CO and ST need at most two calls per component")
+        if rng.chance(1, 4) && !c.queries[0].args.is_empty() && !(c.sem == Sem::CO && c.queries[0].kind == QKind::DS) {
+            let mut s = RefStore::default();
+            for u in &c.fw.ops {
+                s.apply(u);
+            }
+            let live: Vec<L> = s.args_by_id().iter().map(|(_, l)| *l).collect();
+            if live.len() >= 2 {
+                for _ in 0..rng.range(1, 3) {
+                    c.queries[0].args.push(*rng.pick(&live));
+                }
+            }
+        }
         // SAT-based semantics only (GR makes no call); DC-PR is CO, DS-CO is GR: keep them, they are cheap
         if c.sem == Sem::GR {
             c.sem = *rng.pick(&[Sem::PR, Sem::ID, Sem::SST, Sem::STG]);
@@ -485,7 +499,7 @@ impl Property for C18 {
         for u in &case.fw.ops {
             store.apply(u);
         }
-        let (af, _, _) = store.to_ref();
+        let (af, pos_labels, _) = store.to_ref();
         // effective semantics of the procedure: DC-PR is answered by the CO solver, DS-CO / SE-CO by GR
         let eff = match (case.sem, q.kind) {
             (Sem::PR, QKind::DC) => Sem::CO,
@@ -494,8 +508,23 @@ impl Property for C18 {
         };
         let comps = af.components();
         let bounds: Vec<u64> = comps.iter().map(|m| bound(&af.restrict(*m).0, eff, case.enc)).collect();
-        let max_bound = bounds.iter().copied().max().unwrap_or(0);
-        let sum_bound: u64 = bounds.iter().sum();
+        let mut max_bound = bounds.iter().copied().max().unwrap_or(0);
+        let mut sum_bound: u64 = bounds.iter().sum();
+        // a list query may be answered on the union of the components of its members, which then
+        // plays the role of one component: its bound is the property's formula on that union (for
+        // CO / ST: two calls per involved component)
+        if q.args.len() > 1 {
+            let involved: Vec<u32> = comps.iter().copied().filter(|m| q.args.iter().any(|a| pos_labels.iter().position(|l| l == a).map_or(false, |p| m >> p & 1 == 1))).collect();
+            if involved.len() > 1 {
+                let union = involved.iter().fold(0u32, |u, m| u | m);
+                let merged = match eff {
+                    Sem::CO | Sem::ST => 2 * involved.len() as u64,
+                    _ => bound(&af.restrict(union).0, eff, case.enc),
+                };
+                max_bound = max_bound.max(merged);
+                sum_bound += merged;
+            }
+        }
         let budget = 20 * sum_bound.max(max_bound) + 2000;
         let out = exec_static(&case, ExecOpts { record: true, call_budget: Some(budget) });
         let h = out.hub.borrow();
@@ -596,7 +625,7 @@ impl Property for C18 {
         }
     }
     fn rule(&self) -> String {
-        "case = one single-argument query (or SE) of a SAT-based static solver configuration on a generated framework (60 % single-component), answered over SimSat under adversarial oracle policies (MinTrue: longest grow-until-UNSAT chains; Biased; Uniform). SimSat attributes calls to solver instances (one per component per search); RefSem supplies |base| (conflict-free / admissible / complete sets according to the encoder) and |PR| per component. Checked post hoc over the event log: calls per instance <= max over components of the stated bound, total calls <= sum of the bounds, and for PR/ID no projected model returned twice within one search; online: hard budget 20*bound+2000 calls (a non-terminating loop becomes a finite replayable failure). Non-trivial = >= 2 arguments and >= 2 SAT calls; distinct = distinct case".into()
+        "case = one query (SE, a single argument, or in about 1 run in 8 a list of 2..4 arguments judged against the bound of the union of its members' components) of a SAT-based static solver configuration on a generated framework (60 % single-component), answered over SimSat under adversarial oracle policies (MinTrue: longest grow-until-UNSAT chains; Biased; Uniform). SimSat attributes calls to solver instances (one per component per search); RefSem supplies |base| (conflict-free / admissible / complete sets according to the encoder) and |PR| per component. Checked post hoc over the event log: calls per instance <= max over components of the stated bound, total calls <= sum of the bounds, and for PR/ID no projected model returned twice within one search; online: hard budget 20*bound+2000 calls (a non-terminating loop becomes a finite replayable failure). Non-trivial = >= 2 arguments and >= 2 SAT calls; distinct = distinct case".into()
     }
     fn assumptions(&self) -> Vec<String> {
         vec![
